@@ -140,7 +140,7 @@ Proof.
       let r := (let insum := if ex then (Z.of_N rows' * val)%Z else 0%Z in
                 let t := match turns with [] => default_turn ex | t :: _ => t end in
                 match t_act t with
-                | AErr => ([WExc exc_value_error], st1, leak)
+                | AErr k => ([WExc (err_exc k)], st1, leak)
                 | AFinish => if ex then ([WExc exc_runtime_error], st1, leak) else ([], st1, leak)
                 | AEmit =>
                     let v := (t_value t + insum)%Z in
@@ -312,7 +312,7 @@ Fixpoint plain_frames (ex : bool) (turns : list turn) (items : list (N * Z)) : l
       let insum := if ex then (Z.of_N rows * val)%Z else 0%Z in
       let t := match turns with [] => default_turn ex | t :: _ => t end in
       match t_act t with
-      | AErr => [WExc exc_value_error]
+      | AErr k => [WExc (err_exc k)]
       | AFinish => if ex then [WExc exc_runtime_error] else []
       | AEmit => WData (t_rows t) (Z.of_N (t_rows t) * (t_value t + insum))%Z None :: plain_frames ex (tl turns) rest
       end
@@ -351,7 +351,7 @@ Proof.
     snd (let insum := if ex then (Z.of_N rows' * val)%Z else 0%Z in
          let t := match turns with [] => default_turn ex | t :: _ => t end in
          match t_act t with
-         | AErr => ([WExc exc_value_error], st1, leak)
+         | AErr k => ([WExc (err_exc k)], st1, leak)
          | AFinish => if ex then ([WExc exc_runtime_error], st1, leak) else ([], st1, leak)
          | AEmit =>
              let v := (t_value t + insum)%Z in
@@ -362,7 +362,7 @@ Proof.
     map view_frame (fst (fst (let insum := if ex then (Z.of_N rows' * val)%Z else 0%Z in
          let t := match turns with [] => default_turn ex | t :: _ => t end in
          match t_act t with
-         | AErr => ([WExc exc_value_error], st1, leak)
+         | AErr k => ([WExc (err_exc k)], st1, leak)
          | AFinish => if ex then ([WExc exc_runtime_error], st1, leak) else ([], st1, leak)
          | AEmit =>
              let v := (t_value t + insum)%Z in
@@ -373,7 +373,7 @@ Proof.
     = (let insum := if ex then (Z.of_N rows * val)%Z else 0%Z in
        let t := match turns with [] => default_turn ex | t :: _ => t end in
        match t_act t with
-       | AErr => [WExc exc_value_error]
+       | AErr k => [WExc (err_exc k)]
        | AFinish => if ex then [WExc exc_runtime_error] else []
        | AEmit => WData (t_rows t) (Z.of_N (t_rows t) * (t_value t + insum))%Z None :: plain_frames ex (tl turns) (content rest)
        end)).
@@ -393,7 +393,7 @@ Proof.
   assert (Z0 : forall st1, snd (let insum := if ex then (Z.of_N 0 * val)%Z else 0%Z in
          let t := match turns with [] => default_turn ex | t :: _ => t end in
          match t_act t with
-         | AErr => ([WExc exc_value_error], st1, true)
+         | AErr k => ([WExc (err_exc k)], st1, true)
          | AFinish => if ex then ([WExc exc_runtime_error], st1, true) else ([], st1, true)
          | AEmit =>
              let v := (t_value t + insum)%Z in
@@ -704,7 +704,7 @@ Proof.
         destruct (lockstep true g true en [] rest _) as [[fs st2] leak2]. cbn [fst snd map] in *.
         rewrite SV, IH. destruct (sfirst en rest) as [k|]; cbn [option_map]; [|reflexivity].
         rewrite !emits_before_nil. reflexivity.
-      - destruct (t_act t) eqn:A.
+      - destruct (t_act t) as [| |ek] eqn:A.
         + pose proof (ship_view g en (negb (t_rows t =? 0)) (t_rows t) (Z.of_N (t_rows t) * (t_value t + Z.of_N rows * val))%Z
                         (lookup_sz (t_rows t) (g_szi g)) (l_tab st1)) as SV.
           destruct (ship _ _ _ _ _ _ _) as [f tab']. cbn [fst] in SV.
@@ -865,7 +865,7 @@ Proof.
     incl (l_own (snd (fst (let insum := if ex then (Z.of_N rows' * val)%Z else 0%Z in
          let t := match turns with [] => default_turn ex | t :: _ => t end in
          match t_act t with
-         | AErr => ([WExc exc_value_error], st1, leak)
+         | AErr k => ([WExc (err_exc k)], st1, leak)
          | AFinish => if ex then ([WExc exc_runtime_error], st1, leak) else ([], st1, leak)
          | AEmit =>
              let v := (t_value t + insum)%Z in
@@ -1044,6 +1044,229 @@ Proof.
   apply negb_true_iff in H1. apply IH; [apply SC; assumption|exact H3].
 Qed.
 
+(* ---------- the exact size of the table, call by call --------------------------------- *)
+Definition is_sptr (s : sent) : bool := match s with SPtr _ => true | _ => false end.
+Definition slots_of (items : list sitem) : list bool := map (fun i => is_sptr (fst (fst i))) items.
+
+Lemma count_slots items : count_true (slots_of items) = length (sptrs items).
+Proof.
+  unfold count_true, slots_of, sptrs. induction items as [|[[s rows] val] r IH]; [reflexivity|].
+  cbn [map filter flat_map fst]. destruct s; cbn [is_sptr app length]; now rewrite IH.
+Qed.
+
+Lemma slots_skipn : forall p items, skipn p (slots_of items) = slots_of (skipn p items).
+Proof. induction p as [|p IH]; intros [|i r]; try reflexivity. cbn [skipn slots_of map]. apply IH. Qed.
+
+Lemma real_slots_nil its : real_slots its [] = [].
+Proof. destruct its; reflexivity. Qed.
+
+Lemma real_slots_model g m : forall its t own,
+  real_slots its (map (fun i : sent * N * Z => is_ptr_sent (fst (fst i))) (fst (fst (put_items g m its t own))))
+  = slots_of (fst (fst (put_items g m its t own))).
+Proof.
+  induction its as [|it its IH]; intros t own; [reflexivity|]. cbn [put_items].
+  assert (CS : match fst (match m with MExch => client_put g (it_wish it) (it_rows it) t | _ => (SInline, t) end) with
+               | SInline => True | SPtr _ => it_wish it = WPtr | SBad => it_wish it = WBad end).
+  { destruct m; try exact I. apply client_put_sent. }
+  destruct (match m with MExch => client_put g (it_wish it) (it_rows it) t | _ => (SInline, t) end) as [s t1]. cbn [fst] in CS.
+  specialize (IH t1 (req_ptrs s ++ own)). destruct (put_items g m its t1 (req_ptrs s ++ own)) as [[ss t2] own2].
+  cbn [fst snd map real_slots slots_of] in *. fold (slots_of ss). rewrite IH. f_equal.
+  destruct s; cbn [is_ptr_sent is_sptr andb]; [reflexivity|now rewrite CS|now rewrite CS].
+Qed.
+
+Lemma put_items_own g m : forall its t own,
+  Permutation (snd (put_items g m its t own)) (sptrs (fst (fst (put_items g m its t own))) ++ own).
+Proof.
+  induction its as [|it its IH]; intros t own; [apply Permutation_refl|]. cbn [put_items].
+  destruct (match m with MExch => client_put g (it_wish it) (it_rows it) t | _ => (SInline, t) end) as [s t1].
+  specialize (IH t1 (req_ptrs s ++ own)). destruct (put_items g m its t1 (req_ptrs s ++ own)) as [[ss t2] own2].
+  cbn [fst snd] in *. unfold sptrs in *. cbn [flat_map fst]. fold (req_ptrs s).
+  eapply Permutation_trans; [exact IH|]. rewrite <- app_assoc. rewrite !app_assoc. apply Permutation_app_tail. apply Permutation_app_comm.
+Qed.
+
+Lemma err_not_io k : beqb (err_exc k) exc_io_error = false.
+Proof. destruct k; reflexivity. Qed.
+
+Lemma ship_data g en ne u s z t : exists p, fst (ship g en ne u s z t) = WData u s p.
+Proof.
+  unfold ship. destruct (g_size g); [|now exists None].
+  destruct (en && ne && negb (z_buf z <? g_gate g)%Z); [|now exists None].
+  destruct (write_slot n z t) as [[p|] t']; [now exists (Some p)|now exists None].
+Qed.
+
+(* current code, exchange: the loop frees exactly the slots of the inputs it got to -
+   one per answer, plus the one whose turn failed - whatever the turn then did *)
+Lemma lockstep_exch_len g en : forall items turns st R,
+  Permutation (l_own st) (sptrs items ++ R) ->
+  let r := lockstep true g true en turns items st in
+  length (l_own (snd (fst r))) = (length (sptrs (skipn (processed (fst (fst r))) items)) + length R)%nat.
+Proof.
+  induction items as [|[[s rows] val] rest IH]; intros turns st R P; cbv zeta.
+  - cbn [lockstep fst snd processed skipn]. apply Permutation_length in P. rewrite P, app_length. reflexivity.
+  - assert (K : forall h st1 rows' leak, Permutation (l_own st1) (sptrs rest ++ R) ->
+      let r := (let insum := (Z.of_N rows' * val)%Z in
+                let t := match turns with [] => default_turn true | t :: _ => t end in
+                match t_act t with
+                | AErr k => ([WExc (err_exc k)], st1, leak)
+                | AFinish => ([WExc exc_runtime_error], st1, leak)
+                | AEmit =>
+                    let v := (t_value t + insum)%Z in
+                    let '(f, tab') := ship g en (negb (t_rows t =? 0)) (t_rows t) (Z.of_N (t_rows t) * v)%Z (lookup_sz (t_rows t) (g_szi g)) (l_tab st1) in
+                    let '(fs, st2, leak2) := lockstep true g true en (tl turns) rest {| l_tab := tab'; l_own := l_own st1 |} in
+                    (f :: fs, st2, leak || leak2)
+                end) in
+      length (l_own (snd (fst r))) = (length (sptrs (skipn (processed (fst (fst r))) (h :: rest))) + length R)%nat).
+    { intros h st1 rows' leak P1. cbv zeta.
+      destruct (t_act (match turns with [] => default_turn true | t :: _ => t end)) as [| |ek].
+      - destruct (ship_data g en (negb (t_rows (match turns with [] => default_turn true | t :: _ => t end) =? 0))
+                    (t_rows (match turns with [] => default_turn true | t :: _ => t end))
+                    (Z.of_N (t_rows (match turns with [] => default_turn true | t :: _ => t end)) *
+                     (t_value (match turns with [] => default_turn true | t :: _ => t end) + Z.of_N rows' * val))%Z
+                    (lookup_sz (t_rows (match turns with [] => default_turn true | t :: _ => t end)) (g_szi g)) (l_tab st1)) as [p SD].
+        destruct (ship _ _ _ _ _ _ _) as [f tab']. cbn [fst] in SD. subst f.
+        specialize (IH (tl turns) {| l_tab := tab'; l_own := l_own st1 |} R P1). cbv zeta in IH.
+        destruct (lockstep true g true en (tl turns) rest _) as [[fs st2] leak2]. cbn [fst snd processed skipn] in *. exact IH.
+      - cbn [fst snd processed skipn]. change (beqb exc_runtime_error exc_io_error) with false. cbn [skipn].
+        apply Permutation_length in P1. rewrite P1, app_length. reflexivity.
+      - cbn [fst snd processed]. rewrite err_not_io. cbn [skipn].
+        apply Permutation_length in P1. rewrite P1, app_length. reflexivity. }
+    cbn [lockstep].
+    destruct s as [|off|].
+    + apply K. exact P.
+    + destruct en.
+      * unfold sptrs in P. cbn [flat_map fst] in P. fold (sptrs rest) in P. cbn [app] in P.
+        assert (I : In off (l_own st)) by (eapply Permutation_in; [apply Permutation_sym; exact P|now left]).
+        pose proof (remove_one_perm off _ I) as RO.
+        apply K. cbn [l_own]. apply Permutation_cons_inv with (a := off).
+        eapply Permutation_trans; [apply Permutation_sym; exact RO|exact P].
+      * cbn [fst snd processed]. change (beqb exc_io_error exc_io_error) with true. cbn [skipn].
+        apply Permutation_length in P. rewrite P, app_length. reflexivity.
+    + rewrite orb_true_r. cbn [fst snd processed]. change (beqb exc_io_error exc_io_error) with true. cbn [skipn].
+      apply Permutation_length in P. rewrite P, app_length. reflexivity.
+Qed.
+
+Lemma lockstep_inline_own rf g ex en : forall its turns st,
+  l_own (snd (fst (lockstep rf g ex en turns (map (fun it => (SInline, it_rows it, it_val it)) its) st))) = l_own st.
+Proof.
+  induction its as [|it its IH]; intros turns st; [reflexivity|]. cbn [map lockstep]. cbv zeta.
+  destruct (t_act (match turns with [] => default_turn ex | t :: _ => t end)).
+  - destruct (ship _ _ _ _ _ _ _) as [f tab'].
+    specialize (IH (tl turns) {| l_tab := tab'; l_own := l_own st |}).
+    destruct (lockstep rf g ex en (tl turns) _ _) as [[fs st2] leak2]. cbn [fst snd l_own] in *. exact IH.
+  - destruct ex; reflexivity.
+  - reflexivity.
+Qed.
+
+Lemma serve_call_len g size st c : g_size g = Some size ->
+  length (s_own (snd (fst (serve_call current g st c))))
+  = (length (s_own st) + unconsumed (fst (ensure (s_att st) (c_adv c))) c (fst (fst (serve_call current g st c))))%nat.
+Proof.
+  intro E. unfold serve_call, unconsumed. cbn [fst snd b_resp b_req_ptr b_items_ptr s_own]. unfold eff_adv. rewrite E.
+  pose proof (client_put_sent g (c_wish c) 1 (s_tab st)) as CS.
+  set (rq := client_put g (c_wish c) 1 (s_tab st)) in *. set (rs := fst rq) in *.
+  set (pi := if is_stream (c_method c) then put_items g (c_method c) (c_items c) (snd rq) (req_ptrs rs ++ s_own st) else ([], snd rq, req_ptrs rs ++ s_own st)).
+  set (sn := fst (ensure (s_att st) (c_adv c))).
+  assert (OW : Permutation (snd pi) (sptrs (fst (fst pi)) ++ req_ptrs rs ++ s_own st)).
+  { subst pi. destruct (is_stream (c_method c)); [apply put_items_own|apply Permutation_refl]. }
+  assert (SL : real_slots (c_items c) (map (fun i : sent * N * Z => is_ptr_sent (fst (fst i))) (fst (fst pi))) = slots_of (fst (fst pi))).
+  { subst pi. destruct (is_stream (c_method c)); [apply real_slots_model|apply real_slots_nil]. }
+  rewrite SL. clear SL.
+  (* not refused: the request slot, if any, is gone *)
+  assert (K : forall own', Permutation own' (sptrs (fst (fst pi)) ++ s_own st) -> forall t' engaged,
+    length (a_own (let err ty := {| a_resp := [[WExc ty]]; a_tab := t'; a_own := own'; a_alive := true; a_bad := false |} in
+      match c_method c with
+      | MUnknown => err ss_exc_unknown_method
+      | MBlob =>
+          if sc_fail (c_script c) then err exc_value_error
+          else
+            let n := sc_n (c_script c) in
+            let ft := ship g engaged true n (Z.of_N n * c_x c)%Z (lookup_sz n (g_szb g)) t' in
+            {| a_resp := [[fst ft]]; a_tab := snd ft; a_own := own'; a_alive := true; a_bad := false |}
+      | MProd | MExch =>
+          if sc_fail (c_script c) then err exc_value_error
+          else
+            let exchange := match c_method c with MExch => true | _ => false end in
+            let r := lockstep (v_input_refuse current) g exchange engaged (sc_turns (c_script c)) (fst (fst pi)) {| l_tab := t'; l_own := own' |} in
+            {| a_resp := [fst (fst r)]; a_tab := l_tab (snd (fst r)); a_own := l_own (snd (fst r)); a_alive := true; a_bad := snd r |}
+      end))
+    = (length (s_own st) +
+       match c_method c with
+       | MExch => if sc_fail (c_script c) then count_true (slots_of (fst (fst pi)))
+                  else match a_resp (let err ty := {| a_resp := [[WExc ty]]; a_tab := t'; a_own := own'; a_alive := true; a_bad := false |} in
+      match c_method c with
+      | MUnknown => err ss_exc_unknown_method
+      | MBlob =>
+          if sc_fail (c_script c) then err exc_value_error
+          else
+            let n := sc_n (c_script c) in
+            let ft := ship g engaged true n (Z.of_N n * c_x c)%Z (lookup_sz n (g_szb g)) t' in
+            {| a_resp := [[fst ft]]; a_tab := snd ft; a_own := own'; a_alive := true; a_bad := false |}
+      | MProd | MExch =>
+          if sc_fail (c_script c) then err exc_value_error
+          else
+            let exchange := match c_method c with MExch => true | _ => false end in
+            let r := lockstep (v_input_refuse current) g exchange engaged (sc_turns (c_script c)) (fst (fst pi)) {| l_tab := t'; l_own := own' |} in
+            {| a_resp := [fst (fst r)]; a_tab := l_tab (snd (fst r)); a_own := l_own (snd (fst r)); a_alive := true; a_bad := snd r |}
+      end) with
+                       | [fs] => count_true (skipn (processed fs) (slots_of (fst (fst pi))))
+                       | _ => count_true (slots_of (fst (fst pi)))
+                       end
+       | _ => count_true (slots_of (fst (fst pi)))
+       end)%nat).
+  { intros own' P t' engaged. cbv zeta.
+    assert (L0 : length own' = (length (s_own st) + count_true (slots_of (fst (fst pi))))%nat).
+    { apply Permutation_length in P. rewrite P, app_length, count_slots. lia. }
+    destruct (c_method c) eqn:M; cbn [a_own].
+    - destruct (sc_fail (c_script c)); exact L0.
+    - destruct (sc_fail (c_script c)); [exact L0|]. cbn [a_own].
+      subst pi. cbn [is_stream fst snd] in *. rewrite put_items_nonexch by discriminate.
+      rewrite lockstep_inline_own. cbn [l_own]. rewrite put_items_nonexch in L0 by discriminate. exact L0.
+    - destruct (sc_fail (c_script c)); [exact L0|]. cbn [a_own a_resp current v_input_refuse].
+      pose proof (lockstep_exch_len g engaged (fst (fst pi)) (sc_turns (c_script c)) {| l_tab := t'; l_own := own' |} (s_own st) P) as LL.
+      cbv zeta in LL. rewrite LL, slots_skipn, count_slots. lia.
+    - exact L0. }
+  unfold serve.
+  destruct rs as [|off|] eqn:RS; cbn [is_ptr_sent andb req_ptrs app] in *.
+  - (* inline request *)
+    assert (NRF : forall X Y : answer, (if sn then Y else Y) = Y) by (intros; destruct sn; reflexivity).
+    destruct sn; apply K; exact OW.
+  - rewrite CS. destruct sn eqn:SN; cbn [negb orb andb].
+    + assert (I : In off (snd pi)) by (eapply Permutation_in; [apply Permutation_sym; exact OW|apply in_or_app; right; now left]).
+      pose proof (remove_one_perm off _ I) as RO.
+      apply K. apply Permutation_cons_inv with (a := off).
+      eapply Permutation_trans; [apply Permutation_sym; exact RO|].
+      eapply Permutation_trans; [exact OW|]. apply Permutation_sym, Permutation_middle.
+    + cbn [a_own]. apply Permutation_length in OW. rewrite OW, app_length. cbn [length]. rewrite count_slots. lia.
+  - rewrite CS, orb_true_r. destruct sn; cbn [a_own]; apply Permutation_length in OW; rewrite OW, app_length, count_slots; cbn [length]; lia.
+Qed.
+
+Lemma tables_ok_run g size : g_size g = Some size -> forall cs st, s_alive st = true -> Inv st ->
+  tables_ok (s_att st) (length (s_own st)) (length (s_deferred st)) cs (map fst (fst (run current g st cs)))
+            (length (s_own (snd (run current g st cs)))) = true.
+Proof.
+  intro E. induction cs as [|c r IH]; intros st A I; cbn [run].
+  - cbn [fst snd map tables_ok]. apply Nat.eqb_refl.
+  - rewrite A.
+    pose proof (serve_call_len g size st c E) as SL.
+    pose proof (serve_call_inv current g st c I) as I1.
+    pose proof (serve_call_alive g st c) as A1.
+    assert (AT : snd (ensure (s_att st) (c_adv c)) = s_att (snd (fst (serve_call current g st c)))).
+    { unfold serve_call. cbn [fst snd s_att]. unfold eff_adv. now rewrite E. }
+    assert (TB : b_tab (fst (fst (serve_call current g st c))) = s_tab (snd (fst (serve_call current g st c)))) by reflexivity.
+    assert (DF : s_deferred (snd (fst (serve_call current g st c)))
+                 = if c_release_now c then s_deferred st
+                   else s_deferred st ++ ptr_offs (concat (b_resp (fst (fst (serve_call current g st c)))))) by reflexivity.
+    destruct (serve_call current g st c) as [[o st1] bad]. cbn [fst snd] in *.
+    specialize (IH st1 A1 I1). destruct (run current g st1 r) as [os st2]. cbn [fst snd map tables_ok] in *.
+    destruct (ensure (s_att st) (c_adv c)) as [sn att'] eqn:EN. cbn [fst snd] in *. subst att'.
+    assert (DL : length (s_deferred st1) = if c_release_now c then length (s_deferred st)
+                                           else (length (s_deferred st) + length (ptr_offs (concat (b_resp o))))%nat).
+    { rewrite DF. destruct (c_release_now c); [reflexivity|apply app_length]. }
+    rewrite <- SL. rewrite <- DL. rewrite IH, andb_true_r.
+    apply Nat.eqb_eq. rewrite TB. unfold Inv in I1. apply Permutation_length in I1.
+    unfold offs in I1. rewrite map_length, app_length in I1. lia.
+Qed.
+
 (* ---------- the main theorem in decidable form -------------------------------- *)
 Lemma model_meets_spec i : spec_ok i (model i) = true.
 Proof.
@@ -1053,11 +1276,17 @@ Proof.
   pose proof (run_own current (cfg_of i) (i_calls i) init (incl_refl _)) as OW.
   pose proof (run_sent current (cfg_of i) (i_calls i) init) as RS.
   pose proof (run_consumed (cfg_of i) (HDR + i_data i) eq_refl (i_calls i) init eq_refl eq_refl) as RC.
-  destruct (run current (cfg_of i) init (i_calls i)) as [os st]. cbn [fst snd o_escaped o_with o_without o_after o_own negb andb] in *.
+  destruct (run current (cfg_of i) init (i_calls i)) as [os st] eqn:ER. cbn [fst snd o_escaped o_with o_without o_after o_own negb andb] in *.
   change (s_att init) with false in CO. rewrite CO. cbn [andb].
   assert (EMP : s_own st = [] -> after_release st = []).
   { intro O. rewrite O in AR. apply Permutation_sym, Permutation_nil in AR. unfold offs in AR.
     destruct (after_release st); [reflexivity|discriminate]. }
+  pose proof (tables_ok_run (cfg_of i) (HDR + i_data i) eq_refl (i_calls i) init eq_refl inv_init) as TO.
+  rewrite ER in TO. cbn [fst snd] in TO. change (s_att init) with false in TO.
+  change (length (s_own init)) with O in TO. change (length (s_deferred init)) with O in TO.
+  assert (AL : length (after_release st) = length (s_own st)).
+  { apply Permutation_length in AR. unfold offs in AR. now rewrite map_length in AR. }
+  rewrite AL, TO, andb_true_r.
   apply andb_true_iff. split; [apply andb_true_iff; split|].
   - apply forallb_forall. intros e He. apply existsb_exists. exists (fst e). split; [|apply N.eqb_refl].
     apply OW. eapply Permutation_in; [exact AR|]. unfold offs. now apply in_map.
@@ -1252,4 +1481,13 @@ Lemma consumed_empty g size cs : g_size g = Some size ->
 Proof.
   intros E H. apply (no_leak_empty current g cs). left.
   apply (run_consumed g size E cs init eq_refl eq_refl). exact H.
+Qed.
+
+Lemma tables_exact g size cs : g_size g = Some size ->
+  tables_ok false 0 0 cs (map fst (fst (run current g init cs)))
+            (length (after_release (snd (run current g init cs)))) = true.
+Proof.
+  intro E. pose proof (tables_ok_run g size E cs init eq_refl inv_init) as TO.
+  pose proof (after_release_perm current g cs) as AR. cbv zeta in AR.
+  apply Permutation_length in AR. unfold offs in AR. rewrite map_length in AR. rewrite AR. exact TO.
 Qed.
